@@ -12,7 +12,7 @@ def one(job):
         ov = overlay('/repo', tname)
         rep = run_property(prop, 'quick', '/repo', overlay=ov)
         bad = [(o.status, o.rule, o.where, o.desc[:90], o.detail[:160]) for o in rep.obligations if o.status != 'discharged']
-        return prop, tname, len(rep.refuted()), len(rep.undecided()), rep.errors, bad
+        return prop, tname, len(rep.new_refuted()), len(rep.undecided()), rep.errors, bad
     except Exception as e:
         import traceback
         return prop, tname, -1, -1, [traceback.format_exc()[-600:]], []
